@@ -35,6 +35,10 @@ CHECKS = {
    text="Structural mutators are discovered by concrete probing of every public callable of the three classes and the in-place library functions; then on every small shape, after freeze() and on subhypergraph() results, each discovered mutator (dedicated symbolic-argument ops plus a generic recipe call, keyword and positional) leaves the structural snapshot unchanged on every path, and whenever the identical call with identical symbolic arguments changes an equal unfrozen twin it raises the library's error; is_frozen stays True; copy() is unfrozen, equal and editable without touching the original.",
    note="As C01; library error = XGIError or IDNotFound; a public callable without recipe is listed in the evidence.",
    technique="bounded symbolic execution (z3) with twin runs (same symbolic arguments on frozen net and unfrozen twin)"),
+ "C19": dict(level=MC, ref="5/C19",
+   text="Per shape with symbolic labels and attributes: cleanup (all 32 flag sets: exactly the requested guarantees, only deletions/merges, nothing dropped that no guarantee excludes, input untouched), integer relabelling (isomorphism, 0..n-1/0..m-1, old labels recorded, attributes kept; three classes), subhypergraph with one symbolic bit per node and per edge plus absent ids, dual and dual-of-dual, << on pairs of shapes with overlapping labels, complement, cut_to_order/k_skeleton with symbolic order, from_max_simplices, largest_connected_hypergraph - each against a brute-force set-theoretic construction.",
+   note="As C01. cleanup(connected=True) exercised on networks with at least one node.",
+   technique="bounded symbolic execution (z3) against brute-force oracles over enumerated shapes with symbolic labels/selections"),
 }
 NOT_APPLICABLE = {
  "C11": "disk round trips: every value that reaches a file passes through json/numpy C encoders which reject or realise a symbolic proxy, so no solver variable can cross the file boundary; in-memory halves are decided under C10/C04",
